@@ -640,8 +640,38 @@ def run(ctx):
               witness=g.witness([head], edges=last_edges, src=body0[0], edge_ok=NORMAL6) if head in r else None)
     _r06_9(ctx, p, jcls)
     _r06_10(ctx, p)
+    _r06_11(ctx, p, jcls)
     # the storage side: the cursor advances by one per record handed over
     ctx.note("R06.8_scope", "file backend: consecutive numbering is enumerate()-driven and guarded by R07.4/R07.5")
+
+
+def _r06_11(ctx, p, jcls):
+    """A JournalStorage that was pickled / deep-copied is a NEW worker: what __init__ derives from the per-object worker id prefix is derived again
+    from the refreshed prefix in __setstate__ (the replay result carries its own copy of the prefix: kept, it makes the copy claim the sender's
+    records - it raises the sender's rejections and counts the sender's new trials as its own)."""
+    ctx.rule("R06.11", "JournalStorage.__setstate__ re-creates every field that __init__ derives from the worker id prefix, after refreshing the prefix")
+    init = jcls.methods.get("__init__")
+    sst = jcls.methods.get("__setstate__")
+    ctx.require(init is not None and sst is not None, "R06.11: JournalStorage.__init__ / __setstate__ vanished")
+    derived = {}
+    for n in own_nodes(init.node):
+        if isinstance(n, ast.Assign) and len(n.targets) == 1 and self_attr(n.targets[0]) and self_attr(n.targets[0]) != "_worker_id_prefix" \
+                and "self._worker_id_prefix" in norm(n.value):
+            derived[self_attr(n.targets[0])] = n.value
+    ctx.require(derived, "R06.11: no field of JournalStorage is derived from the worker id prefix any more")
+    g = CFG(sst.node, name=sst.qualname)
+    pref = [n for n in g.stmt_nodes() if n.kind == "stmt" and isinstance(n.ast, ast.Assign) and any(self_attr(t) == "_worker_id_prefix" for t in n.ast.targets)]
+    ctx.check(bool(pref) and all("uuid" in norm(n.ast.value) for n in pref), "R06.11", sst.short, "prefix-refreshed",
+              message="JournalStorage.__setstate__ does not give the unpickled object a fresh worker id prefix", how="self._worker_id_prefix = str(uuid.uuid4()) + '-'")
+    for fld, v in sorted(derived.items()):
+        again = [n for n in g.stmt_nodes() if n.kind == "stmt" and isinstance(n.ast, ast.Assign) and any(self_attr(t) == fld for t in n.ast.targets)
+                 and "self._worker_id_prefix" in norm(n.ast.value)]
+        ok = bool(again) and bool(pref) and all(g.dominated_by(n, pref) for n in again)
+        ctx.check(ok, "R06.11", sst.short, f"worker-derived-field-recreated:{fld}",
+                  message=f"JournalStorage.__setstate__ keeps self.{fld} as it was pickled although __init__ builds it from the worker id prefix (`{norm(v)[:60]}`): "
+                          f"the copy replays with the SENDER's worker id, so it takes the sender's records for its own - it raises the errors of operations it never "
+                          f"issued and records the sender's new trials as created by itself", how=f"self.{fld} = {norm(v)[:50]} after the prefix was refreshed")
+    ctx.floor("R06.11", "worker_derived_fields", len(derived), 1)
 
 
 def _r06_10(ctx, p):
